@@ -32,11 +32,14 @@ BOX = {
 }
 MATURITIES = [1 / 12, 0.25, 0.5, 1.0, 2.0]
 RULE = ("documented box: spot in {1,50,100}, r in {0,.02,.05}, d in {0,.01}, T in {1/12,1/4,1/2,1,2}; " + json.dumps(BOX) +
-        f"; regime (where the series truncation error is below tolerance): |cf(T,u_N)| <= {DECAY} at the last COS frequency "
-        "u_N = (n-1)pi/(b-a) (n=10000, l=10) and sqrt(c2(T)) <= 1 -- cases outside the regime are counted, not asserted; strike ladder: "
-        "21 strikes with log(K/S) in [a/3, b/3] ([a,b] = the pricer's truncation range), FFT comparisons on |log(K/S)| <= 0.7; "
-        f"tolerances: prices {TOL}*spot, digital/density/cdf {TOL} (cdf vs Simpson-integrated density 5e-4; density on 1001 uniform log-points over the truncation range), parity 1e-12*max(S,K). "
-        "non-trivial = in-regime model case (all predicates evaluated on its ladder) or an Interval case lemma with k >= 1")
+        " (eta1 and m: 40% of the draws below 6, i.e. heavy right tails); COS regime: |cf(T,u_N)| <= " + str(DECAY) + " at the last COS frequency "
+        "u_N = (n-1)pi/(b-a) (n=10000, l=10) -- outside it the same predicates are evaluated with the tolerance widened by 2e4*|cf(u_N)| and the "
+        "density quadratures are skipped; strike ladders: 21 strikes with log(K/S) in [a/3, b/3] (hard) and 14 strikes in the outer ring up to "
+        "0.9*[a,b] (failures there are the recorded finding F-C18-5, matched by value); FFT comparisons on |log(K/S)| <= 0.7: right-tail rate "
+        "M <= 2.5 => the pricer must raise; resolved regime (M >= 5 and |psi(eta)|/|psi(0)| >= 0.95) => hard, otherwise recorded finding F-C18-4; "
+        f"tolerances: prices {TOL}*spot, digital/density/cdf {TOL} (cdf vs Simpson-integrated density 5e-4; density on 1001 uniform log-points "
+        "over the truncation range), parity 1e-12*max(S,K). non-trivial = model case (all predicates evaluated on its ladders) or an Interval "
+        "case lemma with k >= 1")
 MODELLED = ["numpy elementwise semantics of COSPricer.xi/psi/u_put (translated pointwise by py2coq); np.divide(..., where=mask) leaves "
             "the masked cells uninitialised: modelled by an arbitrary real `uninit` (the theorems show the result never depends on it)",
             "scipy.stats.norm.cdf: abstract Phi (symmetric, [0,1]-valued, monotone) in the theorems; the Gaussian integral PhiR in the "
@@ -66,6 +69,10 @@ THEOREM_NOTES = {
     "C18_density_is_series_specification": "cos_density_impl mirrors cosmethod.py:72-82 and is tied to COSPricer.density by Interval cases",
     "C18_shape_from_positive_density_partial": "partial and conditional: only put >= 0 and digital >= 0, under the hypothesis f_N >= 0 which is "
                                                "never discharged for a concrete model; monotonicity/convexity in K and all bounds are tests only",
+    "C18_omega_guard": "clause 2 is conditional on two stated hypotheses about the closed-form exponents (finite/real/kappa(1) inside the strip, "
+                       "not finite or not real outside); they are discharged only by the harness oracle on fixed and random CGMY/VG parameters; "
+                       "for HEM the second one is false (finite real beyond the pole); HEM and CGMY have generated class guards: C18_omega_guard_hem / _cgmy",
+    "C18_density_integrates_to_A0": "shows that 'integrates to one' is structural (A_0 = Re cf(0) = 1), not evidence of accuracy",
     "C18_vg_is_cgmy": "real argument only (both u and 1 inside the strip); the raw exponents differ by theta*u, the exponential models agree",
 }
 
@@ -660,7 +667,7 @@ def _guard_cases(res, rng, viol):
     from rpylib.model.levymodel.levymodel import ModelType
     fixed = [("CGMY", dict(c=1.0, g=15.0, m=0.9, y=0.5)), ("CGMY", dict(c=1.0, g=15.0, m=0.5, y=1.5)),
              ("HEM", dict(sigma=0.1, p=0.6, eta1=0.9, eta2=25.0, intensity=3.0)), ("HEM", dict(sigma=0.1, p=0.6, eta1=0.5, eta2=25.0, intensity=3.0)),
-             ("VG", dict(sigma=1.2, nu=2.0, theta=0.5)), ("CGMY", dict(c=1.0, g=15.0, m=1.5, y=0.5)),
+             ("VG", dict(sigma=1.2, nu=2.0, theta=0.5)), ("CGMY", dict(c=1.0, g=15.0, m=1.5, y=0.5)), ("CGMY", dict(c=1.0, g=15.0, m=1.0, y=0.5)),
              ("HEM", dict(sigma=0.1, p=0.6, eta1=1.5, eta2=25.0, intensity=3.0)), ("VG", dict(sigma=0.2, nu=0.1, theta=-0.1))]
     u = rng.uniform
     rand = [("HEM", dict(sigma=u(0.03, 0.3), p=u(0.2, 0.8), eta1=u(0.3, 2.0), eta2=u(3, 40), intensity=u(0.5, 6))) for _ in range(6)] + \
@@ -670,9 +677,9 @@ def _guard_cases(res, rng, viol):
     for name, kw in fixed + rand:
         levy = U_.helper_model(ModelType[name], False)(**kw)
         tail = {"HEM": lambda: kw["eta1"], "CGMY": lambda: kw["m"], "VG": lambda: float(levy.parameters._lambda_p)}[name]()
-        if abs(tail - 1) < 1e-6:
+        if abs(tail - 1) < 1e-6 and not (name == "CGMY" and kw["m"] == 1):
             continue
-        inside = tail > 1
+        inside = tail > 1 or (name == "CGMY" and kw["m"] == 1 and kw["y"] > 0)
         with np.errstate(all="ignore"):
             try:
                 z = complex(levy.levy_exponent(x=-1j))
@@ -713,7 +720,8 @@ def _guard_cases(res, rng, viol):
         else:
             lemmas.append((f"guard {name} complex", f"Lemma case_g{n} : exp_omega_checked true {rlit(z.real)} {rlit(z.imag)} = None.\n"
                            f"Proof. apply exp_omega_checked_none. interval. Qed."))
-        if (got is None) != (finite and real and not (name == "HEM" and kw["eta1"] <= 1)):
+        class_guard = (name == "HEM" and kw["eta1"] <= 1) or (name == "CGMY" and (kw["m"] < 1 or (kw["m"] == 1 and kw["y"] <= 0)))
+        if (got is None) != (finite and real and not class_guard):
             viol("constructor and its generated guard disagree on the observed exponent", **rep)
     return lemmas
 
